@@ -170,6 +170,14 @@ func (m DocComposite) deleteWithPrefix(ctx context.Context, key keys.DataStoreKe
 		return err
 	}
 
+	type entry struct {
+		key      keys.DataStoreKey
+		value    []byte
+		hasValue bool
+	}
+	// The entries are collected first and moved once the iterator is closed, some stores (the
+	// in-memory store that time-travel reads replay commits into) block writes while an iterator is open.
+	entries := []entry{}
 	for {
 		hasNext, err := iter.Next()
 		if err != nil {
@@ -184,23 +192,35 @@ func (m DocComposite) deleteWithPrefix(ctx context.Context, key keys.DataStoreKe
 			return errors.Join(err, iter.Close())
 		}
 
+		e := entry{key: dsKey}
 		if dsKey.InstanceType == keys.ValueKey {
 			value, err := iter.Value()
 			if err != nil {
 				return errors.Join(err, iter.Close())
 			}
+			e.value, e.hasValue = value, true
+		}
+		entries = append(entries, e)
+	}
 
-			err = m.store.Set(ctx, dsKey.WithDeletedFlag().Bytes(), value)
+	err = iter.Close()
+	if err != nil {
+		return err
+	}
+
+	for _, e := range entries {
+		if e.hasValue {
+			err = m.store.Set(ctx, e.key.WithDeletedFlag().Bytes(), e.value)
 			if err != nil {
-				return errors.Join(err, iter.Close())
+				return err
 			}
 		}
 
-		err = m.store.Delete(ctx, dsKey.Bytes())
+		err = m.store.Delete(ctx, e.key.Bytes())
 		if err != nil {
-			return errors.Join(err, iter.Close())
+			return err
 		}
 	}
 
-	return iter.Close()
+	return nil
 }
